@@ -127,6 +127,43 @@ def check(run):
                "BaseToken::%s is emitted as %r, which the delta tables lex as %s and the alpha tables as %s" % (v, sp, td, ta),
                sample={"variant": v, "spelling": sp, "delta": td, "alpha": ta})
     run.floor("R2-SPELLING", 45)
+    # ---- R6 token density: the second-generation lexer sizes its token arrays once, as max(source_len / D, 1 << 16), and
+    # reports E103 (a lexical error) when they are full.  The fuzzer's output must stay below one token per D bytes.  A lower
+    # bound of its mean token length follows from the weight table and the spellings (1 byte for every randomly spelled
+    # token, separators not counted); large outputs exceed the capacity as soon as D is larger than the true mean.
+    te = F.body("delta::lexer::tokens::Tokens::empty")
+    divs = [n for n in walk(te["hir"]) if n.get("k") == "Binary" and n.get("op") == "Div" and hirq.local_name_of(hirq.unwrap_trivial(n["lhs"])) == "source_len"]
+    dvals = [hirq.unwrap_trivial(n["rhs"]).get("v") for n in divs]
+    run.require(len(dvals) >= 1 and isinstance(dvals[0], int), "Tokens::empty: `source_len / D` not found")
+    Dv = dvals[0]   # the first division sizes the token arrays (the second one the payloads)
+    tot = sum(w for v, w in weights.items() if isinstance(w, int))
+    # shortest lexeme of each randomly spelled token kind (facts of the lexical grammar, not of the random generator)
+    MINLEN = {"Identifier": 1, "NakedDecimal": 1, "BitInteger": 3, "SuffixedInteger": 3, "CharLiteral": 3, "StringLiteral": 2, "Bool": 4,
+              "Builtin": 2, "Type": 2, "BraceLeft": 1, "BraceRight": 1}
+    mean_lb = sum(w * (len(disp[v]) if (v not in explicit and disp.get(v)) else MINLEN.get(v, 1)) for v, w in weights.items() if isinstance(w, int) and w > 0) / float(tot)
+    # expected separator bytes per token: add_whitespace pushes one space with probability p unless the last byte is a newline,
+    # and newlines are at least `lo` bytes apart (every token has at least one byte, so at most one token in `lo` follows a newline)
+    p_space, lo = 0.0, None
+    for n in walk(fz["hir"]):
+        if n.get("k") == "Let" and n["pat"].get("name") == "add_whitespace":
+            ps = []
+            for c in hirq.calls(n["init"]):
+                if c.get("name") == "random_bool" and c.get("a"):
+                    mo = re.search(r'Float\("([0-9.]+)"', str(hirq.unwrap_trivial(c["a"][0]).get("v")))
+                    if mo:
+                        ps.append((c["l"], float(mo.group(1))))
+            if ps:
+                p_space = sorted(ps)[-1][1]    # the `else if rng.random_bool(p) { push(' ') }` branch is the last one
+        if n.get("k") == "Let" and n["pat"].get("name") == "next_newline_at" and lo is None:
+            for x in walk(n.get("init", {})):
+                if x.get("k") == "Struct" and str(x.get("path", "")).endswith("ops::Range"):
+                    lo = hirq.unwrap_trivial(x["fields"][0]["e"]).get("v")
+    sep_lb = p_space * (1.0 - 1.0 / lo) if (lo and lo > 1) else 0.0
+    mean_lb += sep_lb
+    run.ob("R6-TOKEN-DENSITY", "capacity divisor vs mean token length", Dv <= mean_lb, "%s / %s" % (F.where(te), F.where(fz, wm)),
+           "token arrays hold source_len / %d tokens; a lower bound of the fuzzer's mean token length (weights x shortest spellings "
+           " is %.2f bytes incl. %.2f expected separator bytes: with a divisor above the mean, outputs beyond a few hundred KB are rejected with E103" % (Dv, mean_lb, sep_lb),
+           sample={"divisor": Dv, "mean_token_length_lower_bound": round(mean_lb, 3)})
     fcalls = [hirq.callee(c) for c in hirq.calls(fallback["body"])]
     run.ob("R2-SPELLING", "fallback-uses-to_string", any((c or "").endswith("ToString>::to_string") for c in fcalls),
            F.where(fz, fallback), "the fallback arm must spell the token with its strum Display")
